@@ -1,5 +1,5 @@
 (* C07 — exact comparison of each modelled pass with the real pass's (enter, exit) dump. *)
-From SwayV Require Import Base.Util Asm.Model C08.Spec C08.Model C07.Model C07.Spec.
+From SwayV Require Import Base.Util Asm.Model C08.Spec C08.Model C07.Model C07.Spec C07.CpModel.
 Local Open Scope N_scope.
 
 Fixpoint first_diff (a b : list op) (k : N) : N :=
@@ -29,3 +29,6 @@ Definition judge_pass (p : N) (before after : list op) : N * N * N :=
          | POk m => (cmp m after, side) | PFuel => ((7, 0), side) | PPanic s => ((9, s), side) end
   | _ => ((8, 0), side)
   end.
+
+(* constant_propagate: the positions of the rewrites the validator cannot justify ([] = all justified) *)
+Definition judge_cp (before after : list op) : list N := cp_check before after.
